@@ -165,6 +165,13 @@ class Gen:
             return "(= %s %s)" % (sub(), sub())
         if k < 0.95:
             return "(ite %s %s %s)" % (sub(), sub(), sub())
+        if r.random() < 0.5 and len(self.boolvars) >= 2:
+            # parallel let shadowing declared names: the second binding must see the OUTER first name
+            a, b = r.sample(self.boolvars, 2)
+            return "(let ((%s %s) (%s %s)) %s)" % (a, sub(), b, a, sub())
+        if r.random() < 0.5 and len(self.numvars) >= 2 and not self.dl:
+            a, b = r.sample(self.numvars, 2)
+            return "(let ((%s %s) (%s (+ %s 1))) %s)" % (a, self.nterm(1), b, a, sub())
         return "(let ((?l %s)) (or ?l %s))" % (sub(), sub())
 
 
